@@ -10,11 +10,16 @@
 (*   expect_read [n, r] ms read timeout within                             *)
 (*   expect_drop [n, r] ms connection dropped (no CONNECT in time)         *)
 (*   expect_pings n        the client wrote at least n PINGREQ             *)
+(* Time is measured on the run's own clock: the number of 1 s sleeps of the *)
+(* scenario that have completed (`tick` events) when the endpoint acts, not *)
+(* wall-clock milliseconds - a loaded machine stretches sleeps and timers   *)
+(* alike (a wall-clock window raised a false alarm on a busy machine).      *)
+(* [n, r] ms windows are rounded down to whole ticks (stop at tick count k = in the interval [k s, k+1 s) of the run).                   *)
 (***************************************************************************)
 EXTENDS Naturals, Integers, Sequences, TLC
 
 Init == [ bad |-> "none", ver |-> 5, expect |-> "none", lo |-> 0, hi |-> 0, cnt |-> 0,
-          stopCode |-> -1, stopAt |-> -1, disc |-> -1, doneAt |-> -1, pings |-> 0, now |-> 0,
+          stopCode |-> -1, stopAt |-> -1, disc |-> -1, doneAt |-> -1, pings |-> 0, now |-> 0, ticks |-> 0,
           ended |-> FALSE ]
 
 Fail(m, why) == IF m.bad = "none" THEN [m EXCEPT !.bad = why] ELSE m
@@ -45,13 +50,13 @@ Step(m, ev) ==
   CASE ev.e = "reset" -> [Init EXCEPT !.ver = ev.q]
     [] m.ended -> m
     [] ev.e = "mark" /\ ev.k = "expect_pings" -> [m EXCEPT !.expect = ev.k, !.cnt = ev.n]
-    [] ev.e = "mark" -> [m EXCEPT !.expect = ev.k, !.lo = ev.n, !.hi = ev.r]
-    [] ev.e = "tick" -> [m EXCEPT !.now = ev.n]
+    [] ev.e = "mark" -> [m EXCEPT !.expect = ev.k, !.lo = ev.n \div 1000, !.hi = ev.r \div 1000]
+    [] ev.e = "tick" -> [m EXCEPT !.now = ev.n, !.ticks = @ + 1]
     [] ev.e = "ctl" /\ ev.k \in {"stop_proto", "stop_error", "stop_peer"} ->
-         IF m.stopCode = -1 THEN [m EXCEPT !.stopCode = ev.r, !.stopAt = ev.n] ELSE m
+         IF m.stopCode = -1 THEN [m EXCEPT !.stopCode = ev.r, !.stopAt = m.ticks] ELSE m
     [] ev.e = "out" /\ ev.k = "DISCONNECT" -> [m EXCEPT !.disc = ev.r]
     [] ev.e = "out" /\ ev.k = "PINGREQ" -> [m EXCEPT !.pings = @ + 1]
-    [] ev.e = "conn_done" -> IF m.doneAt = -1 THEN [m EXCEPT !.doneAt = m.now] ELSE m
+    [] ev.e = "conn_done" -> IF m.doneAt = -1 THEN [m EXCEPT !.doneAt = m.ticks] ELSE m
     [] ev.e = "panic" -> Fail(m, "C20:panic")
     [] ev.e = "end" -> AtEnd([m EXCEPT !.ended = TRUE])
     [] OTHER -> m
